@@ -393,6 +393,53 @@ func init() {
 		}
 		return sres("%t %t", pa.Equals(cp), pa.HasPrefix(ext))
 	})
+	defOp("PathText", "", func(t *taskState, a [3]cty.Value, p [3]int) opRes {
+		pa := t.w.paths[p[0]%len(t.w.paths)]
+		out := ""
+		for _, st := range pa {
+			switch s := st.(type) {
+			case cty.GetAttrStep:
+				out += s.GoString()
+			case cty.IndexStep:
+				out += s.GoString()
+			}
+		}
+		if len(pa) > 0 {
+			if last := pa.LastStep; last != nil {
+				_, st, err := last(a[0])
+				out += fmt.Sprintf("|%T %v", st, err == nil)
+			}
+		}
+		return sres("%s", out)
+	}, selAny)
+	defOp("MarksEqual", "", func(t *taskState, a [3]cty.Value, p [3]int) opRes {
+		m0, m1 := a[0].Marks(), a[1].Marks()
+		_, d0 := a[0].UnmarkDeep()
+		return sres("%t %t %t", m0.Equal(m1), m0.Equal(d0), d0.Equal(d0))
+	}, selAny, selAny)
+	defOp("CapsuleOps", "", func(t *taskState, a [3]cty.Value, p [3]int) opRes {
+		// conversions a capsule type provides, in both directions, and its extension data
+		ct := capTypes[1]
+		var out []cty.Value
+		s := fmt.Sprint(ct.CapsuleExtensionData("verif"), ct.CapsuleExtensionData("other"), capTypes[0].CapsuleExtensionData("verif"))
+		in := a[0]
+		if u, _ := in.Unmark(); !u.Type().IsCapsuleType() && u.Type() != cty.Bool {
+			in = []cty.Value{cty.CapsuleVal(ct, capPayloads[1][p[0]%6]), cty.BoolVal(p[0]%2 == 0), cty.UnknownVal(ct), cty.NullVal(ct)}[p[1]%4]
+		}
+		for _, target := range []cty.Type{cty.Number, cty.String, cty.Bool, ct} {
+			r, err := convert.Convert(in, target)
+			if err != nil {
+				s += "|" + errClass(err)
+				continue
+			}
+			out = append(out, r)
+		}
+		return opRes{vals: out, s: s}
+	}, selAny)
+	defOp("RefineNull", "", func(t *taskState, a [3]cty.Value, p [3]int) opRes {
+		u, _ := a[0].Unmark()
+		return v1(cty.UnknownVal(u.Type()).Refine().Null().NewValue())
+	}, selAny)
 	// ---- accessors followed by mutation of the returned Go data
 	defOp("AsBigFloatMutate", "alias.out.bigfloat", func(t *taskState, a [3]cty.Value, p [3]int) opRes {
 		u, _ := a[0].Unmark()
